@@ -254,9 +254,9 @@ CLAIMED = {
     technique="Lean 4 mirror of the lifter + class theorems over all words, addresses and states; executable differential"),
  "C01": dict(
     category="proof",
-    text="51 Lean theorems. Instruction level (64-bit mode): for mov/add/sub/cmp/and/or/xor in all five operand forms (r,r / r,imm / "
+    text="53 Lean theorems. Instruction level (64-bit mode): for mov/add/sub/cmp/and/or/xor in all five operand forms (r,r / r,imm / "
          "r,[mem] / [mem],r / [mem],imm), lea, inc/dec/neg/not, setcc r8, cmovcc r,r and jcc rel (14 flag-only condition codes; the "
-         "not-taken 32-bit cmov still zero-extends), test r,r / r,imm, xchg r,r, movzx/movsx/movsxd r,r, push r64 and pop r64 - all registers and operand sizes including high-byte registers "
+         "not-taken 32-bit cmov still zero-extends), test r,r / r,imm, xchg r,r, movzx/movsx/movsxd r,r, push r64, pop r64, ret and call rel32 - all registers and operand sizes including high-byte registers "
          "(aliasing included), any base/index/scale/displacement, all addresses and every state with a mapped, non-wrapping access - "
          "running the IL of a Lean mirror of the lifter (including mode.rs operand_value/load/store; compared syntactically with falcon's "
          "real output on every generated case of these classes) yields all sixteen registers, CF ZF SF OF, memory and next pc of a Lean "
@@ -277,9 +277,9 @@ CLAIMED = {
     category="proof",
     text="MIPS (mips/mipsel) and 32-bit PowerPC: for every register/immediate field and every machine state, the IL falcon emits for the "
          "proved classes computes exactly the registers, memory and next pc of a Lean interpreter decoding the raw word (theorems "
-         "lift_correct_single, lift_correct_pair, lift_overflow_stops, ppc_lift_correct over full Lean mirrors of the lifters; 10 theorems). "
+         "lift_correct_single, lift_correct_pair, lift_overflow_stops, lift_correct_swl_swr, ppc_lift_correct over full Lean mirrors of the lifters; 11 theorems). "
          "MIPS: integer ALU incl. the trapping add/addi/sub (overflow decision for all operand values), shifts, immediates, lui, slt*, "
-         "movn/movz, HI/LO moves, mult/multu/mul, byte/half/word loads and stores, lwl/lwr in both byte orders, the six conditional branches plus "
+         "movn/movz, HI/LO moves, mult/multu/mul, byte/half/word loads and stores, lwl/lwr and swl/swr in both byte orders, the six conditional branches plus "
          "b/j with any such instruction in the delay slot. PowerPC: every lifted mnemonic but bdnzl and conditional bclr, including "
          "addze/srawi carry, record forms, rlwinm masks, update forms and stmw's exact word count. falcon's emitted IL is compared "
          "syntactically with the proved mirror on every generated word. Remaining classes: three-way differential (falcon executor / Lean "
@@ -288,7 +288,7 @@ CLAIMED = {
     note="Tie of the mirror to falcon: syntactic equality of the emitted IL on every generated word; where that fails, a z3 query (tools/il_equiv.py, encoder self-tested against the Lean IL semantics on the same run) decides equivalence of the two ILs for all states - validation support for the tie, not a theorem; z3 and the encoder then join the trusted base. "
          "Interpreters transcribed from memory of the MIPS32 and Power ISA manuals (not in the sandbox, no second implementation); "
          "universality over encodings is proved for the (A) classes only; jr is _partial; CR SO bits excluded (XER[SO] is not modelled by "
-         "falcon); one lemma (PpcCarry.addc_eq) uses bv_decide and carries its native axioms; 11 known findings (link/target evaluated "
+         "falcon); PpcCarry.addc_eq and the byte identities of swl/swr use bv_decide and carry its native axioms; 11 known findings (link/target evaluated "
          "after the delay slot, division by zero, misaligned accesses, XER[SO], bdnzl).",
     technique="Lean 4 refinement proof (mirror of the lifter + ISA interpreter) + executable three-way correspondence"),
 }
